@@ -1,6 +1,7 @@
 CONSTANTS
   MaxF = 2
   OrdF = 1
+  MultiKinds = {"Transport", "NonJSON", "PartialData", "RateLimited", "WrongEntityCount"}
 SPECIFICATION GenSpec
 CONSTRAINT Emit
 CHECK_DEADLOCK FALSE
